@@ -204,12 +204,10 @@ func FlushOfSpecificNI(c *fluent.GRIBIClient, wantACK fluent.ProgrammingResult, 
 // named VRF and ensures that entries are removed from both when the Flush specifies
 // that all network instances are to be removed.
 func FlushOfAllNIs(c *fluent.GRIBIClient, wantACK fluent.ProgrammingResult, t testing.TB, _ ...TestOpt) {
-	// TODO(robjs): we need to initialise the server with >1 network instance.
-	t.Skip()
 	defer flushServer(c, t)
 
-	vrfName := "TEST-VRF"
-
+	// The server is expected to be initialised with the non-default VRF that
+	// the suite is configured with (see SetNonDefaultVRFName).
 	addFlushEntriesToNI(c, defaultNetworkInstanceName, wantACK, t)
 	addFlushEntriesToNI(c, vrfName, wantACK, t)
 
